@@ -285,15 +285,27 @@ Proof.
   destruct (numch_atom c Hc) as [A L]. split; [constructor; assumption|]. simpl. rewrite L, IH2. reflexivity.
 Qed.
 
+Lemma inner_char_cases c : inner_char c = true -> atom_char c = true \/ is_ws c = true.
+Proof.
+  intros H. by_ascii (fun c => implb (inner_char c) (atom_char c || is_ws c)) c F. rewrite H in F. simpl in F.
+  apply orb_true_iff in F. exact F.
+Qed.
+
+Lemma atom_inner c : atom_char c = true -> inner_char c = true.
+Proof. intros H. by_ascii (fun c => implb (atom_char c) (inner_char c)) c F. rewrite H in F. exact F. Qed.
+
+Lemma ws_inner c : is_ws c = true -> inner_char c = true.
+Proof. intros H. by_ascii (fun c => implb (is_ws c) (inner_char c)) c F. rewrite H in F. exact F. Qed.
+
 Lemma tk_inner m inner : Forall (fun c => inner_char c = true) inner ->
   forall p rest cur, is_paren p = true ->
   tk m (inner ++ p :: rest) cur = tk m inner cur ++ String p EmptyString :: tk m rest [].
 Proof.
   induction 1 as [|c inner Hc _ IH]; intros p rest cur Hp.
   - cbn [app]. rewrite (tk_paren m p rest cur Hp). cbn [tk]. apply flush_app.
-  - cbn [app]. unfold inner_char in Hc. destruct (atom_char c) eqn:A.
+  - cbn [app]. destruct (inner_char_cases c Hc) as [A|Hw].
     + destruct (atom_char_facts c A) as (H1 & H2 & H3). cbn [tk]. rewrite H1, H2, H3. apply IH. exact Hp.
-    + simpl in Hc. rewrite (tk_ws m c _ cur Hc), (tk_ws m c inner cur Hc), (IH p rest [] Hp).
+    + clear Hc. rename Hw into Hc. rewrite (tk_ws m c _ cur Hc), (tk_ws m c inner cur Hc), (IH p rest [] Hp).
       rewrite (flush_app cur (tk m inner [] ++ _)), (flush_app cur (tk m inner [])), app_assoc. reflexivity.
 Qed.
 
@@ -310,11 +322,11 @@ Proof.
     - apply Forall_rev. subst cur. exact Hcur. }
   induction 1 as [|c inner Hc _ IH]; intros cur Hcur.
   - cbn [tk]. apply Fl; [exact Hcur|constructor].
-  - unfold inner_char in Hc. destruct (atom_char c) eqn:A.
+  - destruct (inner_char_cases c Hc) as [A|Hw].
     + destruct (atom_char_facts c A) as (H1 & H2 & H3). cbn [tk]. rewrite H1, H2, H3. apply IH.
       constructor; [|exact Hcur].
       by_ascii (fun c => implb (atom_char c) (atom_char (lower_ascii c))) c F. rewrite A in F. exact F.
-    + simpl in Hc. rewrite (tk_ws m c inner cur Hc). apply Fl; [exact Hcur|]. apply IH. constructor.
+    + rewrite (tk_ws m c inner cur Hw). apply Fl; [exact Hcur|]. apply IH. constructor.
 Qed.
 
 (* ------------------------------------------------------------------ the token tree of a printed expression *)
@@ -657,8 +669,8 @@ Proof.
     rewrite app_assoc, rev_app_distr. reflexivity.
   - apply forallb_forall. apply Forall_forall. unfold inner.
     change (c :: name ++ s :: args) with ((c :: name) ++ s :: args). apply Forall_app. split.
-    + eapply Forall_impl; [|exact Fn']. intros x Hx. unfold inner_char. rewrite Hx. reflexivity.
-    + constructor; [unfold inner_char; rewrite Hs; apply orb_true_r|].
+    + eapply Forall_impl; [|exact Fn']. intros x Hx. apply atom_inner. exact Hx.
+    + constructor; [apply ws_inner; exact Hs|].
       eapply Forall_impl; [|exact Fa]. intros x Hx. apply arg_char_inner. exact Hx.
   - unfold fl_tokens. rewrite Ei. unfold tokenize, inner.
     change (c :: name ++ s :: args) with ((c :: name) ++ s :: args).
